@@ -780,7 +780,11 @@ func run(env *ev.Env, c Case) (o ev.Outcome) {
 		switch {
 		case res.err == nil && bytes.Equal(res.data, want):
 			o.Class("verdict:accepted-identical")
-			o.Class("accepted:" + label)
+			if len(want) == 0 {
+				o.Class("accepted(empty plaintext):" + label)
+			} else {
+				o.Class("accepted:" + label)
+			}
 		case res.err == errNoProgress:
 			o.Failf("%s: %v (after %d bytes)", desc, res.err, len(res.data))
 			return
@@ -1137,6 +1141,7 @@ func FuzzC16(f *testing.F) {
 		vs = append(vs, variant{ps: ps, mem: b.Mems["default"], raw: raw, want: want})
 	}
 	k1, k2 := knownOpen("c16.emptyStreamReadsAsEmptyPart"), knownOpen("c16.seekableLengthUnauthenticated")
+	k3 := knownOpen("c16.sequentialReaderEOFAtBoundary")
 	f.Fuzz(func(t *testing.T, which uint8, pos uint32, x uint8, truncAt uint32, extend uint32) {
 		v := vs[int(which)%2]
 		mut := append([]byte(nil), v.raw...)
@@ -1180,7 +1185,14 @@ func FuzzC16(f *testing.F) {
 			if tl == tinkHdr+tagSize {
 				k, tt = 0, tagSize
 			}
-			if tt >= 1 && tt <= tagSize && len(data) == ptLenOfSegments(k) && bytes.Equal(mut, v.raw[:len(mut)]) {
+			if tt >= 1 && tt <= tagSize && len(data) == ptLenOfSegments(k) {
+				return
+			}
+		}
+		if k3 && int(which)%2 == 0 && bytes.HasPrefix(v.want, data) && len(mut) >= 4 {
+			// KF-C16-3: the stream ends right after the tink stream header or 1 byte after a full segment
+			tl := len(mut) - 4 - int(binary.BigEndian.Uint32(v.raw[:4]))
+			if (tl == tinkHdr && len(data) == 0) || (tl >= css && tl%css == 1 && len(data) == ptLenOfSegments(tl/css)) {
 				return
 			}
 		}
